@@ -106,17 +106,13 @@ def _solve_bin(binary, txt, timeout_ms, want_model):
     with tempfile.NamedTemporaryFile("w", suffix=".smt2", delete=False, dir=os.environ.get("SYMX_TMP", None)) as f:
         if binary == "cvc5":
             f.write("(set-logic ALL)\n")
-        if want_model:
-            f.write("(set-option :produce-models true)\n")
         f.write(txt)
-        if want_model:
-            f.write("\n(get-model)\n")
         path = f.name
     try:
         if binary == "cvc5":
-            cmd = ["cvc5", "--tlimit=%d" % int(timeout_ms), path]
+            cmd = ["cvc5", "--tlimit=%d" % int(timeout_ms)] + (["--dump-models"] if want_model else []) + [path]
         else:
-            cmd = [binary, "-T:%d" % max(1, int(timeout_ms / 1000)), path]
+            cmd = [binary, "-T:%d" % max(1, int(timeout_ms / 1000))] + (["-model"] if want_model else []) + [path]
         try:
             p = subprocess.run(cmd, capture_output=True, text=True, timeout=timeout_ms / 1000 + 10)
             out = p.stdout
@@ -141,18 +137,22 @@ def _solve_bin(binary, txt, timeout_ms, want_model):
     return "unknown", None, dt
 
 
-PORTFOLIO = ("z3api", "/usr/bin/z3", "cvc5")
+# (solver, fraction of the budget): a short in-process attempt first, then the old z3 binary (often faster on polynomial
+# identities), then the in-process solver with the full budget, then cvc5
+PORTFOLIO = (("z3api", 0.15), ("/usr/bin/z3", 1.0), ("z3api", 1.0), ("cvc5", 1.0))
 
 
 def solve_text(txt, timeout_ms=20000, want_model=True, portfolio=PORTFOLIO):
     """first definite answer wins; returns (status, model, solver, secs)"""
     total = 0.0
     last = ("unknown", None, None)
-    for sv in portfolio:
+    for ent in portfolio:
+        sv, frac_ = ent if isinstance(ent, tuple) else (ent, 1.0)
+        to = max(1000, int(timeout_ms * frac_))
         if sv == "z3api":
-            st, model, dt = _solve_api(txt, timeout_ms, want_model)
+            st, model, dt = _solve_api(txt, to, want_model)
         else:
-            st, model, dt = _solve_bin(sv, txt, timeout_ms, want_model)
+            st, model, dt = _solve_bin(sv, txt, to, want_model)
         total += dt
         if st in ("sat", "unsat"):
             return st, model, sv, total
